@@ -34,8 +34,8 @@ def corpus():
         # hot restart: the old instance acknowledges two more records, then the new one writes
         [[2, 0, []], [1, 0, 2, 0, 0, 0], [0], 1,
          [[0, [b"r0;"]], [0, [b"r1;"]], [4, 1], [5, [b"r2;"]], [5, [b"r3;"]], [0, [b"r4;"]], [6], [0, [b"r5;"]]]],
-        # background rotation: two roll-overs back to back behind a slow (gzip of 64 KiB) first rotation
-        [[0, 0], [1, 0, 3, 1, 0, 1], [1, b"x" * 65536], 1,
+        # background rotation: two roll-overs back to back behind a slow (gzip of 32 KiB) first rotation
+        [[0, 0], [1, 0, 3, 1, 0, 1], [1, bytes(range(256)) * 128], 1,
          [[2, [[[b"one"], [b"two"], [b"three"]]]], [0, [b"four"]]]],
         [[2, 0, [0, 0, rc.NEVER, 0, 0, 0]], [1, 7, 3, 1], [1, b"old"], 1,
          [[0, [b"r1"]], [0, [b"r", b"2"]], [0, [b"r3"]], [0, [b"r4"]], [0, [b"r5"]], [0, [b"r6"]]]],
@@ -96,8 +96,8 @@ def bg_case(rng):
     """a history for the `background_rotation` build: window roller with count >= 1, rotations in quick
     succession (triggers that fire at almost every append; bursts, also of ONE thread, issue several appends
     back to back so that two roll-overs fall into the same wall-clock second while the previous background
-    rotation is still busy - made slow by a pre-existing file of 20-80 KiB that has to be gzipped)"""
-    slow = rng.chance(1, 3)
+    rotation is still busy - in 1/6 of the cases made slow by a pre-existing file of 12-40 KB that has to be gzipped)"""
+    slow = rng.chance(1, 6)
     gz = 1 if slow else rng.below(2)
     roller = [1, rng.choice([0, 1, 7]), rng.choice([1, 1, 2, 3, 4]), gz, rng.choice([0, 0, 1, 2]), 1]
     k = rng.below(6)
@@ -108,7 +108,7 @@ def bg_case(rng):
     else:
         trig = [2, rng.below(2), [rng.choice([0, 0, 0, rc.NEVER]) for _ in range(60)]]
     if slow:
-        pre = [1, rc.rec_bytes(rng, "pre", rng.choice([20000, 50000, 80000]))]
+        pre = [1, rc.rec_bytes(rng, "pre", rng.choice([12000, 24000, 40000]))]
     else:
         pre = [0] if rng.chance(1, 2) else [1, rc.rec_bytes(rng, "pre", rng.choice([0, 3, 9]))]
     ops, rid = [], 0
